@@ -121,6 +121,8 @@ class Prop:
     HOOK_MODE = 1            # ledger configuration installed before each case (LG_BOTH)
     FUZZ_TARGETS = []        # names of native/fz_*.c targets run besides the Hypothesis search
     REQUIRED_CLASSES = []    # classes the rule names; empty ones are reported as coverage gaps
+    CONFIRM_TRIES = 3        # a candidate failure is replayed this many times in fresh processes ...
+    CONFIRM_NEED = 3         # ... and reported only if it fails at least this many times
 
     def budget(self, tier):
         """returns dict(workers=int, examples=int per worker)"""
